@@ -541,6 +541,8 @@ class Interp:
             self.stack.pop()
             f.last_activation = act
     def call_contract(self, c, f, args, kw):
+        if not hasattr(self, "applied"): self.applied = set()
+        self.applied.add(c.target)                       # modularity audit: every contract used at a call site must itself be proved in the same property
         env, bound = self.bind_args(f, args, kw)
         return c.apply(self, f, bound)
     def instantiate(self, cls, args, kw):
